@@ -91,10 +91,10 @@ PROPS = {
         "level_note": "trusted: A-STD (binary_search, sort_unstable, dedup as 'remove consecutive repeats', Vec basics), A-ORD plus 'PartialEq agrees with Ord and structural equality' for Edges::from, closure header annotation R9 in Bins::index_of; bounded: enum:bins - all edge collections of length <= 4 (quick) / 5 (thorough), all probes, 2-axis grids with <= 3 edges per axis",
         "technique": "Verus contracts + representation invariant (strictly sorted edges) on extracted Edges/Bins methods; lemmas relating binary-search outcomes to bin membership",
         "design_ref": "DESIGN.md 4 (C13)",
-        "verus": [("bins", "N")],
+        "verus": [("bins", "N"), ("grid", "N")],
         "enum": [{"name": "bins"}],
         "assumptions": [A_ORD, A_STD, A_VERUS, A_EXTRACT, A_ENUM],
-        "assumed_repo_fns": ["src/histogram/bins.rs Bins::range_of, Edges::from(Array1), Edges::as_array_view/iter; src/histogram/grid.rs Grid::{shape,index_of,index,ndim,projections}: outside Verus (closures with tuple patterns, iterator adaptor chains) - bounded enumeration only"],
+        "assumed_repo_fns": ["src/histogram/bins.rs Bins::range_of, Edges::from(Array1), Edges::as_array_view/iter; src/histogram/grid.rs Grid::{index,projections}: bounded enumeration only (Grid::{ndim,shape,index_of} are verified in unit grid)"],
         "not_decided": [],
     },
     "C17": {
@@ -279,14 +279,16 @@ PROPS.update({
     },
     "C11": {
         "level": "proof",
-        "level_text": "Verus discharges on the extracted bodies of Histogram::new, Histogram::add_observation and Histogram::ndim a representation invariant over histories: for every grid and every history of (accepted or rejected) observations, the count stored at each index tuple inside the shape equals the number of observations of the history lying in that cell (left-closed, right-open on every axis); new() establishes it for the empty history with the grid's shape; add_observation re-establishes it for the extended history, returns BinNotFound exactly when no cell contains the point and then changes nothing. Uniqueness of the cell (needed to show that no other count moves) is a proved lemma over the strictly sorted edges. The per-axis lookup Bins::index_of is proved in the bins unit. The matrix form HistogramExt::histogram (one observation per row: loop over axis_iter(Axis(0))) is verified on its extracted body too: every count of the result is the number of rows of the matrix falling into that cell. Grid::shape / Grid::index_of (iterator chains) enter with *assumed* contracts and are enumerated on the real crate: counts after every insert, rejected inserts, order independence, row-/column-major matrices",
-        "level_note": "trusted: ArrayD<usize> as a map from index tuples to counts (zeros, Index/IndexMut by &[usize]) - A-ND; assumed contracts of Grid::shape and Grid::index_of (checked bounded by enum:bins and enum:histogram); counts below usize::MAX (precondition). bounded: enum:histogram - grids of 1..3 axes over 5 edge sets, sequences of <= 3 (quick) / 4 (thorough) observations over 7 coordinate values per axis",
+        "level_text": "Verus discharges on the extracted bodies of Histogram::new, Histogram::add_observation and Histogram::ndim a representation invariant over histories: for every grid and every history of (accepted or rejected) observations, the count stored at each index tuple inside the shape equals the number of observations of the history lying in that cell (left-closed, right-open on every axis); new() establishes it for the empty history with the grid's shape; add_observation re-establishes it for the extended history, returns BinNotFound exactly when no cell contains the point and then changes nothing. Uniqueness of the cell (needed to show that no other count moves) is a proved lemma over the strictly sorted edges. The per-axis lookup Bins::index_of is proved in the bins unit. The matrix form HistogramExt::histogram (one observation per row: loop over axis_iter(Axis(0))) is verified on its extracted body too: every count of the result is the number of rows of the matrix falling into that cell. Grid::{ndim, shape, index_of} are verified in unit `grid` (iterator chains modelled as vectors of their items, A-ITER; the closure's tuple pattern is written as two parameters) and used by the histogram proofs through identical callee contracts (checked textually on every run): counts after every insert, rejected inserts, order independence, row-/column-major matrices",
+        "level_note": "trusted: ArrayD<usize> as a map from index tuples to counts (zeros, Index/IndexMut by &[usize]) - A-ND; contracts of Grid::{ndim,shape,index_of} proved in unit grid (also exercised by enum:bins and enum:histogram); counts below usize::MAX (precondition). bounded: enum:histogram - grids of 1..3 axes over 5 edge sets, sequences of <= 3 (quick) / 4 (thorough) observations over 7 coordinate values per axis",
         "technique": "Verus data-structure invariant (counts == fold over the observation history) on extracted Histogram methods; bounded enumeration of grid/histogram histories",
         "design_ref": "DESIGN.md 4 (C11), 8a",
-        "verus": [("bins", "N"), ("hist", "N")],
+        "verus": [("bins", "N"), ("grid", "N"), ("hist", "N")],
+        "contract_sync": [("shim/hist.rs", "pub fn index_of(&self, point: &Lane<A>)", "units/grid.tpl.rs", "pub fn index_of(&self, point: &Lane<A>)"), ("shim/hist.rs", "pub fn shape(&self)", "units/grid.tpl.rs", "pub fn shape(&self)"), ("shim/hist.rs", "pub fn ndim(&self) -> (n: usize)", "units/grid.tpl.rs", "pub fn ndim(&self) -> (n: usize)"),
+                          ("shim/grid_iter.rs", "pub fn index_of(&self, value: &A)", "units/bins.tpl.rs", "id=Bins::index_of>>pub fn index_of(&self, value: &A)"), ("shim/grid_iter.rs", "pub fn len(&self) -> (n: usize)", "units/bins.tpl.rs", "id=Bins::len>>pub fn len(&self) -> (n: usize)")],
         "enum": [{"name": "histogram"}],
         "assumptions": [A_ORD, A_STD, A_VERUS, A_EXTRACT, A_ENUM, BOUNDED_NOTE],
-        "assumed_repo_fns": ["src/histogram/grid.rs Grid::shape, Grid::index_of: assumed contracts in shim/hist.rs (iterator chains outside Verus), enumerated by enum:bins / enum:histogram", "ndarray axis_iter(Axis(0)) of a 2-D array: every row once, in index order (assumed, shim/hist.rs)"],
+        "assumed_repo_fns": ["ndarray axis_iter(Axis(0)) of a 2-D array: every row once, in index order (assumed, shim/hist.rs)"],
         "not_decided": [],
         "rule": "one case per (grid, observation sequence); non-trivial = at least one observation and every axis has at least one bin",
     },
